@@ -194,81 +194,67 @@ func stripPattern(n *sx) *sx {
 
 type skolem struct{ name, sort string }
 
+// skolemizer eliminates the quantifiers of a set of assertions (the assumptions and the negated
+// goal) in rounds: a quantifier in existential position (a universal under an odd number of
+// negations, an existential under an even number) that is not below a remaining universal is
+// replaced by its body at a fresh constant, named after its position so that the name is the same
+// in every round; a quantifier in universal position is replaced by the conjunction of its
+// instances at the constants introduced so far (true when there is none). Each step yields a
+// consequence of the original assertion (up to the choice of the fresh constants), so an
+// unsatisfiable result proves the original query unsatisfiable.
 type skolemizer struct {
-	enc   *Enc
-	sk    []skolem
-	decls []string
-	n     int
-	tag   string
+	sk      []skolem          // constants available for instantiation in this round
+	found   []skolem          // constants introduced (this round)
+	byPath  map[string]string // position -> constant name
+	pathOf  map[string]string
+	decl    map[string]string // constant name -> sort
+	order   []string
+	n       int
+	budget  int // remaining instance count
 }
 
-// skolemizeGoal strengthens goal g (proved as ¬g unsatisfiable): positive universal quantifiers
-// are replaced by their body at fresh constants.
-func (z *skolemizer) goal(n *sx, pos bool) *sx {
-	if !n.list {
-		return n
+func (z *skolemizer) constFor(path, sort string) string {
+	if c, ok := z.byPath[path]; ok {
+		return c
 	}
-	switch h := n.head(); h {
-	case "not":
-		if len(n.kids) == 2 {
-			return listSx(n.kids[0], z.goal(n.kids[1], !pos))
-		}
-	case "=>":
-		out := &sx{list: true, kids: make([]*sx, len(n.kids))}
-		out.kids[0] = n.kids[0]
-		for i := 1; i < len(n.kids); i++ {
-			if i == len(n.kids)-1 {
-				out.kids[i] = z.goal(n.kids[i], pos)
-			} else {
-				out.kids[i] = z.goal(n.kids[i], !pos)
-			}
-		}
-		return out
-	case "and", "or":
-		out := &sx{list: true, kids: make([]*sx, len(n.kids))}
-		out.kids[0] = n.kids[0]
-		for i := 1; i < len(n.kids); i++ {
-			out.kids[i] = z.goal(n.kids[i], pos)
-		}
-		return out
-	case "ite":
-		if len(n.kids) == 4 {
-			return listSx(n.kids[0], n.kids[1], z.goal(n.kids[2], pos), z.goal(n.kids[3], pos))
-		}
-	case "!":
-		return z.goal(stripPattern(n), pos)
-	case "forall":
-		if pos && len(n.kids) == 3 && n.kids[1].list {
-			m := map[string]string{}
-			for _, b := range n.kids[1].kids {
-				if !b.list || len(b.kids) != 2 {
-					return n
-				}
-				name := fmt.Sprintf("sk$%s!%d", z.tag, z.n)
-				z.n++
-				sort := b.kids[1].String()
-				z.sk = append(z.sk, skolem{name, sort})
-				z.decls = append(z.decls, "(declare-const "+name+" "+sort+")")
-				m[b.kids[0].atom] = name
-			}
-			return z.goal(stripPattern(n.kids[2]).subst(m), pos)
-		}
-	}
-	return n
+	c := fmt.Sprintf("sk$%d", z.n)
+	z.n++
+	z.byPath[path] = c
+	z.pathOf[c] = path
+	z.decl[c] = sort
+	z.order = append(z.order, c)
+	return c
 }
 
-// weaken returns a consequence of assumption n that has no universal quantifier in positive
-// position: each such quantifier becomes the conjunction of its instances at the skolem constants
-// of its sorts (true when there is none). ok=false: the term keeps a quantifier elsewhere.
-func (z *skolemizer) weaken(n *sx, pos bool) (*sx, bool) {
+func binders(n *sx) (names, sorts []string, ok bool) {
+	if len(n.kids) != 3 || !n.kids[1].list {
+		return nil, nil, false
+	}
+	for _, b := range n.kids[1].kids {
+		if !b.list || len(b.kids) != 2 || b.kids[0].list {
+			return nil, nil, false
+		}
+		names = append(names, b.kids[0].atom)
+		sorts = append(sorts, b.kids[1].String())
+	}
+	return names, sorts, true
+}
+
+// elim returns a consequence of n (n in positive position when pos, else a formula that n implies)
+// without quantifiers; ok=false when a quantifier sits where polarity is not determined.
+func (z *skolemizer) elim(n *sx, pos bool, path string) (*sx, bool) {
 	if !n.list {
 		return n, true
 	}
-	switch h := n.head(); h {
+	h := n.head()
+	switch h {
 	case "not":
 		if len(n.kids) == 2 {
-			k, ok := z.weaken(n.kids[1], !pos)
-			return listSx(n.kids[0], k), ok
+			k, ok := z.elim(n.kids[1], !pos, path+"n")
+			if !ok {
+				return nil, false
+			}
+			return listSx(n.kids[0], k), true
 		}
 	case "=>", "and", "or":
 		out := &sx{list: true, kids: make([]*sx, len(n.kids))}
@@ -278,7 +264,7 @@ func (z *skolemizer) weaken(n *sx, pos bool) (*sx, bool) {
 			if h == "=>" && i < len(n.kids)-1 {
 				p = !pos
 			}
-			k, ok := z.weaken(n.kids[i], p)
+			k, ok := z.elim(n.kids[i], p, fmt.Sprintf("%s.%d", path, i))
 			if !ok {
 				return nil, false
 			}
@@ -287,70 +273,78 @@ func (z *skolemizer) weaken(n *sx, pos bool) (*sx, bool) {
 		return out, true
 	case "ite":
 		if len(n.kids) == 4 && !n.kids[1].hasQuant() {
-			a, ok1 := z.weaken(n.kids[2], pos)
-			b, ok2 := z.weaken(n.kids[3], pos)
-			if ok1 && ok2 {
-				return listSx(n.kids[0], n.kids[1], a, b), true
+			a, ok1 := z.elim(n.kids[2], pos, path+".t")
+			if !ok1 {
+				return nil, false
 			}
-			return nil, false
+			b, ok2 := z.elim(n.kids[3], pos, path+".e")
+			if !ok2 {
+				return nil, false
+			}
+			return listSx(n.kids[0], n.kids[1], a, b), true
 		}
 	case "!":
-		return z.weaken(stripPattern(n), pos)
-	case "forall":
-		if pos && len(n.kids) == 3 && n.kids[1].list {
-			var names, sorts []string
-			for _, b := range n.kids[1].kids {
-				if !b.list || len(b.kids) != 2 {
-					return nil, false
-				}
-				names = append(names, b.kids[0].atom)
-				sorts = append(sorts, b.kids[1].String())
-			}
-			// candidate tuples
-			tuples := []map[string]string{{}}
-			for i := range names {
-				var next []map[string]string
-				for _, t := range tuples {
-					for _, s := range z.sk {
-						if s.sort != sorts[i] {
-							continue
-						}
-						c := map[string]string{}
-						for k, v := range t {
-							c[k] = v
-						}
-						c[names[i]] = s.name
-						next = append(next, c)
-					}
-				}
-				tuples = next
-				if len(tuples) > 9 {
-					tuples = tuples[:9]
-				}
-			}
-			body := stripPattern(n.kids[2])
-			conj := []*sx{atomSx("and"), atomSx("true")}
-			for _, t := range tuples {
-				k, ok := z.weaken(body.subst(t), pos)
-				if !ok {
-					return nil, false
-				}
-				conj = append(conj, k)
-			}
-			return listSx(conj...), true
+		return z.elim(stripPattern(n), pos, path)
+	case "forall", "exists":
+		names, sorts, ok := binders(n)
+		if !ok {
+			return nil, false
 		}
-		return nil, false
-	case "exists":
-		if !pos && len(n.kids) == 3 && n.kids[1].list {
-			// ¬∃x.P = ∀x.¬P : the same weakening, under the negation
-			fa := listSx(atomSx("forall"), n.kids[1], listSx(atomSx("not"), n.kids[2]))
-			k, ok := z.weaken(fa, true)
+		body := stripPattern(n.kids[2])
+		universal := (h == "forall") == pos
+		if !universal {
+			m := map[string]string{}
+			for i := range names {
+				c := z.constFor(fmt.Sprintf("%s/x%d", path, i), sorts[i])
+				z.found = append(z.found, skolem{c, sorts[i]})
+				m[names[i]] = c
+			}
+			return z.elim(body.subst(m), pos, path+"/b")
+		}
+		tuples := []map[string]string{{}}
+		for i := range names {
+			var next []map[string]string
+			for _, t := range tuples {
+				for _, s := range z.sk {
+					if s.sort != sorts[i] {
+						continue
+					}
+					c := map[string]string{}
+					for k, v := range t {
+						c[k] = v
+					}
+					c[names[i]] = s.name
+					next = append(next, c)
+				}
+			}
+			tuples = next
+			if len(tuples) > 48 {
+				tuples = tuples[:48]
+			}
+		}
+		// a universal in positive position becomes the conjunction of its instances; in negative
+		// position (an existential read negatively) the disjunction
+		op, unit := "and", "true"
+		if !pos {
+			op, unit = "or", "false"
+		}
+		parts := []*sx{atomSx(op), atomSx(unit)}
+		for _, t := range tuples {
+			if z.budget <= 0 {
+				break
+			}
+			z.budget--
+			key := ""
+			for _, nm := range names {
+				key += "," + t[nm]
+			}
+			k, ok := z.elim(body.subst(t), pos, path+"["+key+"]")
 			if !ok {
 				return nil, false
 			}
-			return listSx(atomSx("not"), k), true
+			parts = append(parts, k)
 		}
-		return nil, false
+		return listSx(parts...), true
 	}
 	if n.hasQuant() {
 		return nil, false
@@ -358,56 +352,168 @@ func (z *skolemizer) weaken(n *sx, pos bool) (*sx, bool) {
 	return n, true
 }
 
-// smtSkolemized: the obligation with the goal skolemised and every assumption either kept (when
-// quantifier-free), weakened to its instances at the skolem constants, or dropped. "" when the goal
-// has no universal quantifier in positive position.
+// smtSkolemized: the obligation with every quantifier eliminated as described above. "" when the
+// goal has no quantifier.
 func (o *Obligation) smtSkolemized() string {
-	if !strings.Contains(o.Goal, "(forall ") {
+	if !strings.Contains(o.Goal, "(forall ") && !strings.Contains(o.Goal, "(exists ") {
 		return ""
 	}
 	g, ok := parseSx(o.Goal)
 	if !ok {
 		return ""
 	}
-	z := &skolemizer{enc: o.vc.enc, tag: "g"}
-	g2 := z.goal(g, true)
-	if len(z.sk) == 0 {
-		return ""
+	negGoal := listSx(atomSx("not"), g)
+	type qline struct {
+		idx int
+		t   *sx
 	}
-	var sb strings.Builder
-	sb.WriteString("(set-logic ALL)\n")
-	var body strings.Builder
-	handle := func(l string) {
+	var decls, qf []string
+	var qs []qline
+	handle := func(l string, idx int) {
 		if !strings.HasPrefix(l, "(assert") {
-			sb.WriteString(l)
-			sb.WriteByte('\n')
+			decls = append(decls, l)
 			return
 		}
 		if !(strings.Contains(l, "(forall ") || strings.Contains(l, "(exists ")) {
-			body.WriteString(l)
-			body.WriteByte('\n')
+			qf = append(qf, l)
 			return
 		}
 		a, ok := parseSx(l)
 		if !ok || len(a.kids) != 2 {
 			return
 		}
-		w, ok := z.weaken(a.kids[1], true)
+		qs = append(qs, qline{idx, a.kids[1]})
+	}
+	for i, l := range o.vc.enc.header {
+		handle(l, i)
+	}
+	for i, l := range o.vc.stream[:o.Prefix] {
+		handle(l, 100000+i)
+	}
+	z := &skolemizer{byPath: map[string]string{}, pathOf: map[string]string{}, decl: map[string]string{}}
+	// ground terms of the goal's definitional cone (loop counters, lengths, keys read in the
+	// iteration) are instantiation candidates too: "the invariant extends by one iteration"
+	// needs the quantified hypotheses at the current index, not only at the witness
+	ground := o.coneGround(declSorts(decls))
+	z.sk = append(z.sk, ground...)
+	var out []string
+	var goalOut string
+	for round := 0; round < 3; round++ {
+		z.found = nil
+		z.budget = 4000
+		out = out[:0]
+		gk, ok := z.elim(negGoal, true, "G")
 		if !ok {
-			return
+			return ""
 		}
-		body.WriteString("(assert " + w.String() + ")\n")
+		goalOut = gk.String()
+		for _, q := range qs {
+			k, ok := z.elim(q.t, true, fmt.Sprintf("L%d", q.idx))
+			if !ok {
+				continue
+			}
+			out = append(out, "(assert "+k.String()+")")
+		}
+		// constants for the next round: everything introduced so far, goal constants first
+		// constants for the next round: those of the goal first, then the ground terms of the
+		// goal's cone, then the witnesses the assumptions introduced
+		seen := map[string]bool{}
+		var next []skolem
+		for _, c := range z.order {
+			if strings.HasPrefix(z.pathOf[c], "G") {
+				seen[c] = true
+				next = append(next, skolem{c, z.decl[c]})
+			}
+		}
+		for _, c := range ground {
+			if !seen[c.name] {
+				seen[c.name] = true
+				next = append(next, c)
+			}
+		}
+		for _, c := range z.order {
+			if !seen[c] && len(next) < 48 {
+				seen[c] = true
+				next = append(next, skolem{c, z.decl[c]})
+			}
+		}
+		if len(next) == len(z.sk) {
+			break
+		}
+		z.sk = next
 	}
-	for _, l := range o.vc.enc.header {
-		handle(l)
+	if len(z.order) == 0 && len(ground) == 0 {
+		return ""
 	}
-	for _, l := range o.vc.stream[:o.Prefix] {
-		handle(l)
-	}
-	for _, d := range z.decls {
+	var sb strings.Builder
+	sb.WriteString("(set-logic ALL)\n")
+	for _, d := range decls {
 		sb.WriteString(d + "\n")
 	}
-	sb.WriteString(body.String())
-	sb.WriteString("(assert (not " + g2.String() + "))\n(check-sat)\n")
+	for _, c := range z.order {
+		sb.WriteString("(declare-const " + c + " " + z.decl[c] + ")\n")
+	}
+	for _, l := range qf {
+		sb.WriteString(l + "\n")
+	}
+	for _, l := range out {
+		sb.WriteString(l + "\n")
+	}
+	sb.WriteString("(assert " + goalOut + ")\n(check-sat)\n")
 	return sb.String()
+}
+
+func declSorts(decls []string) map[string]string {
+	m := map[string]string{}
+	for _, d := range decls {
+		const p = "(declare-const "
+		if strings.HasPrefix(d, p) {
+			rest := d[len(p) : len(d)-1]
+			if k := strings.IndexByte(rest, ' '); k > 0 {
+				m[rest[:k]] = rest[k+1:]
+			}
+		}
+	}
+	return m
+}
+
+// coneGround: the Int- and String-sorted constants of the goal and of the definitions it rests on,
+// nearest first, at most eight per sort.
+func (o *Obligation) coneGround(sorts map[string]string) []skolem {
+	vc := o.vc
+	si := vc.sliceIdx()
+	si.once.Do(func() { si.build(vc) })
+	if o.Prefix > len(si.tok) {
+		return nil
+	}
+	defLine := map[string][]int{}
+	for i := 0; i < o.Prefix; i++ {
+		if s := si.defSym[i]; s != "" {
+			defLine[s] = append(defLine[s], i)
+		}
+	}
+	var out []skolem
+	count := map[string]int{}
+	seen := map[string]bool{}
+	queue := tokenize(o.Goal, vc.enc.declared)
+	for len(queue) > 0 && len(out) < 16 {
+		t := queue[0]
+		queue = queue[1:]
+		if seen[t] {
+			continue
+		}
+		seen[t] = true
+		if so := sorts[t]; (so == sInt || so == sString) && !isControlSym(t) && count[so] < 8 {
+			count[so]++
+			out = append(out, skolem{t, so})
+		}
+		for _, i := range defLine[t] {
+			for _, u := range si.tok[i] {
+				if !seen[u] {
+					queue = append(queue, u)
+				}
+			}
+		}
+	}
+	return out
 }
